@@ -31,6 +31,7 @@ import warnings  # noqa: E402
 warnings.filterwarnings("ignore")
 import numpy as np  # noqa: E402
 
+EXTRA_MODULES = {"C16": ["Dreye.Props.C16Bary"]}
 ALLOWED_AXIOMS = {"propext", "Classical.choice", "Quot.sound"}
 FORBIDDEN = ["sorry", "admit", "native_decide", "bv_decide", "implemented_by", "unsafe ",
              "maxHeartbeats 0", "ofReduceBool"]
@@ -239,6 +240,8 @@ def lean_obligations(prop, tier):
     returns dict(ok, theorems=[(name, axioms)], problems=[...], checker_cmd, wall_s)"""
     t0 = time.time()
     mod = "Dreye.Props.%s" % prop
+    # extra modules holding further theorems of the same property (namespace Dreye.<prop>)
+    extra = [m for m in EXTRA_MODULES.get(prop, []) if os.path.exists(os.path.join(LEAN, *m.split(".")) + ".lean")]
     problems = []
     if tier == "thorough":
         # rebuild the property module from scratch
@@ -247,7 +250,7 @@ def lean_obligations(prop, tier):
             p = os.path.join(LEAN, ".lake", "build", "lib", "lean", "Dreye", "Props", "%s.%s" % (prop, ext))
             if os.path.exists(p):
                 os.remove(p)
-    build_cmd = ["lake", "build", mod, "Dreye.Driver.All", "Dreye.Audit.Cmd"]
+    build_cmd = ["lake", "build", mod, "Dreye.Driver.All", "Dreye.Audit.Cmd"] + extra
     rc, out, err = sh(build_cmd, cwd=LEAN, timeout=3000)
     if rc != 0:
         msg = [l for l in (out + err).split("\n") if "error" in l][:8]
@@ -259,7 +262,8 @@ def lean_obligations(prop, tier):
     if rc == 0:
         stub = os.path.join(LEAN, ".lake", "audit_%s_%d.lean" % (prop, os.getpid()))
         with open(stub, "w") as f:
-            f.write("import Dreye.Audit.Cmd\nimport %s\n#audit %s\n" % (mod, mod))
+            f.write("import Dreye.Audit.Cmd\n" + "".join("import %s\n" % m for m in [mod] + extra)
+                    + "".join("#audit %s\n" % m for m in [mod] + extra))
         rc2, out2, err2 = sh(["lake", "env", "lean", stub], cwd=LEAN, timeout=1200)
         os.remove(stub)
         if rc2 != 0:
@@ -285,7 +289,7 @@ def lean_obligations(prop, tier):
         if not theorems:
             problems.append("no theorems found in %s" % mod)
         if tier == "thorough" and not problems:
-            rc3, out3, err3 = sh(["lake", "env", "leanchecker", mod], cwd=LEAN, timeout=3000)
+            rc3, out3, err3 = sh(["lake", "env", "leanchecker", mod] + extra, cwd=LEAN, timeout=3000)
             if rc3 != 0:
                 problems.append("leanchecker rejected %s: %s" % (mod, (out3 + err3)[-300:]))
     cmd = "cd lean && lake build %s && lake env lean <stub: #audit %s>" % (mod, mod)
